@@ -396,7 +396,8 @@ func c20Name(s string) string {
 	parts := strings.Split(s, ".")
 	q := make([]string, len(parts))
 	for i, p := range parts {
-		q[i] = fmt.Sprintf("%q", p)
+		// Coq string literal: raw bytes, only the double quote is escaped (by doubling)
+		q[i] = "\"" + strings.ReplaceAll(p, "\"", "\"\"") + "\""
 	}
 	return "[" + strings.Join(q, "; ") + "]"
 }
@@ -509,8 +510,79 @@ func c20Add(a, b string) string {
 
 // c20GenOp draws one operation, biased by the current registry (as last observed) so that a good
 // share of operations passes the existence/ownership/expiry gates and the rest are strangers'.
+// c20CaseVariant changes the letter case of one label (never the TLD's: "OL" is another,
+// not allowed, first-level domain) — a DIFFERENT name for the case-sensitive registry
+func c20CaseVariant(r *rand.Rand, name string) string {
+	parts := strings.Split(name, ".")
+	if len(parts) < 2 {
+		return strings.ToUpper(name)
+	}
+	i := r.Intn(len(parts) - 1)
+	if parts[i] == "" {
+		return strings.ToUpper(name[:1]) + name[1:]
+	}
+	switch r.Intn(3) {
+	case 0:
+		parts[i] = strings.ToUpper(parts[i])
+	case 1:
+		parts[i] = strings.ToUpper(parts[i][:1]) + parts[i][1:]
+	default:
+		parts[i] = parts[i][:len(parts[i])-1] + strings.ToUpper(parts[i][len(parts[i])-1:])
+	}
+	return strings.Join(parts, ".")
+}
+
+// c20NearMiss: names one keystroke away from a registered one; all but the first are refused by IsValid /
+// IsNameAllowed (they belong in the refused stream)
+func c20NearMiss(r *rand.Rand, name string) string {
+	switch r.Intn(7) {
+	case 0:
+		return c20CaseVariant(r, name)
+	case 1:
+		return name + "."
+	case 2:
+		return strings.Replace(name, ".", "..", 1)
+	case 3:
+		return " " + name
+	case 4:
+		return name + " "
+	case 5:
+		return strings.Replace(name, "o", "\u043e", 1) // cyrillic o
+	default:
+		i := strings.LastIndex(name, ".")
+		if i < 0 {
+			return strings.ToUpper(name)
+		}
+		return name[:i] + strings.ToUpper(name[i:])
+	}
+}
+
 func c20GenOp(r *rand.Rand, sc *c20Scenario, reg map[string]c20Dom, h int64) c20Op {
 	o := c20GenOp0(r, sc, reg, h)
+	// address a registered name (or the name about to be used) by a case variant / near-miss:
+	// the registry is keyed by the exact string of the transaction
+	if k := r.Intn(100); k < 12 {
+		base := o.Name
+		if len(reg) > 0 && r.Intn(3) != 0 {
+			ns := []string{}
+			for n := range reg {
+				ns = append(ns, n)
+			}
+			sort.Strings(ns)
+			base = ns[r.Intn(len(ns))]
+			if o.Kind == "create" && r.Intn(2) == 0 && strings.Count(base, ".") == 1 {
+				base = []string{"a.", "pay."}[r.Intn(2)] + base
+			}
+		}
+		if k < 8 {
+			o.Name = c20CaseVariant(r, base)
+		} else {
+			o.Name = c20NearMiss(r, base)
+		}
+		if o.Kind == "create" && r.Intn(2) == 0 {
+			o.Signer = r.Intn(c20NActors) // a stranger's self-signed create
+		}
+	}
 	// inputs only Validate rejects: foreign signature, foreign / unknown currency, nil beneficiary
 	switch r.Intn(40) {
 	case 0:
@@ -807,6 +879,23 @@ func c20Directed() []c20Scenario {
 				{Kind: "send", Signer: 4, Benef: -1, Name: "a.store.ol", Amount: olt(1)}, {Kind: "send", Signer: 4, Benef: -1, Name: "b.store.ol", Amount: olt(1)}},
 			{{Kind: "renew", Signer: 0, Benef: -1, Name: "shop.ol", Amount: olt(2)}, {Kind: "update", Signer: 0, Benef: 0, Name: "shop.ol", Active: false, Uri: ""}},
 			{{Kind: "send", Signer: 4, Benef: -1, Name: "pay.shop.ol", Amount: olt(1)}},
+		}},
+		// D11: names differing only in letter case are DIFFERENT names (exact, case-sensitive keys): a stranger's
+		// "Shop.ol" / "Pay.shop.ol" never touches the owner's shop.ol / pay.shop.ol; near-miss spellings are refused
+		{Label: "case_variants_are_other_names", PerBlock: pb, Base: base, Blocks: [][]c20Op{
+			{cr(0, "shop.ol", olt(40)), cr(0, "n.ol", olt(40))},
+			{cr(0, "pay.shop.ol", olt(6))},
+			{cr(1, "Shop.ol", olt(20)), cr(1, "Pay.shop.ol", olt(6)), cr(1, "pay.SHOP.ol", olt(6)), cr(2, "shop.OL", olt(20))},
+			{cr(0, "Pay.shop.ol", olt(6)), cr(1, "pay.Shop.ol", olt(6)), cr(2, "N.ol", olt(9))},
+			{{Kind: "update", Signer: 1, Benef: 1, Name: "shop.ol", Active: true, Uri: "http://attacker"}, {Kind: "update", Signer: 0, Benef: 0, Name: "Shop.ol", Active: true, Uri: ""},
+				{Kind: "sell", Signer: 1, Benef: -1, Name: "Shop.ol", Amount: olt(2)}, {Kind: "renew", Signer: 0, Benef: -1, Name: "sHop.ol", Amount: olt(3)}},
+			{{Kind: "purchase", Signer: 3, Benef: 3, Name: "SHOP.ol", Amount: olt(3)}, {Kind: "purchase", Signer: 3, Benef: 3, Name: "shop.ol", Amount: olt(3)},
+				{Kind: "purchase", Signer: 3, Benef: 3, Name: "Shop.ol", Amount: olt(3)}},
+			{{Kind: "send", Signer: 4, Benef: -1, Name: "shop.ol", Amount: olt(1)}, {Kind: "send", Signer: 4, Benef: -1, Name: "Shop.ol", Amount: olt(1)},
+				{Kind: "send", Signer: 4, Benef: -1, Name: "pay.shop.ol", Amount: olt(1)}, {Kind: "send", Signer: 4, Benef: -1, Name: "Pay.shop.ol", Amount: olt(1)},
+				{Kind: "deletesub", Signer: 1, Benef: -1, Name: "Shop.ol"}, {Kind: "deletesub", Signer: 3, Benef: -1, Name: "Shop.ol"}},
+			{cr(2, "shop.ol.", olt(20)), cr(2, "shop..ol", olt(20)), cr(2, " shop.ol", olt(20)), cr(2, "shop.ol ", olt(20)), cr(2, "sh\u043ep.ol", olt(20)),
+				{Kind: "update", Signer: 0, Benef: 0, Name: "shop.ol.", Active: true, Uri: ""}, {Kind: "send", Signer: 4, Benef: -1, Name: "shop..ol", Amount: olt(1)}},
 		}},
 		// D10: price-option change vs the mempool: a passed onsOptions.perBlockFees proposal (1 -> 2 OLT per
 		// block) whose PROPOSAL_FINALIZE has only gone through CheckTx must not change what a payment
